@@ -724,10 +724,29 @@ func runC11(p *core.Prog, r *core.Report) {
 		sx.Instrs(contains, func(in ssa.Instruction) {
 			if c, ok := in.(*ssa.Call); ok && strings.HasSuffix(sx.CalleeName(c), ".Uint32") && strings.Contains(sx.CalleeName(c), "encoding/binary") {
 				conv = append(conv, c)
+			} else if ok && isBigEndian32(sx.StaticCallee(c)) {
+				conv = append(conv, c) // a helper of the package that spells the same conversion out
 			}
 		})
+		// the conversion spelled out in place (a private helper seen in the view): b[0]<<24 | b[1]<<16 | b[2]<<8 | b[3]
+		var inlineBases []ssa.Value
 		if len(conv) == 0 {
+			sx.Instrs(contains, func(in ssa.Instruction) {
+				b, ok := in.(*ssa.BinOp)
+				if !ok || (b.Op != token.OR && b.Op != token.ADD) {
+					return
+				}
+				if base, ok := bigEndianTree(b); ok {
+					inlineBases = append(inlineBases, base)
+				}
+			})
+		}
+		if len(conv) == 0 && len(inlineBases) == 0 {
 			r.Fail("C11-R5", "Contains: address bytes converted", p.FuncPos(contains), "no binary.BigEndian.Uint32 conversion found")
+		}
+		for _, base := range inlineBases {
+			org := sx.Origins(base)
+			r.Check(org["call:(net.IP).To4"] && !org["param:ip"], "C11-R5", "Contains: bytes read derive from To4()", p.FuncPos(contains), "the 4 bytes combined come from ip.To4()", "the bytes combined derive from "+keys(org)+": a 16-byte IPv4 address would be misread or rejected")
 		}
 		for _, c := range conv {
 			arg := c.Call.Args[len(c.Call.Args)-1]
@@ -961,6 +980,109 @@ func runC11(p *core.Prog, r *core.Report) {
 		}
 		_ = early
 	}
+}
+
+// bigEndianTree: v is x[0]<<24 | x[1]<<16 | x[2]<<8 | x[3] (as uint32, any association of | or +) for one slice x.
+func bigEndianTree(v ssa.Value) (ssa.Value, bool) {
+	seen := map[int64]int64{}
+	var base ssa.Value
+	var walk func(v ssa.Value, shift int64) bool
+	walk = func(v ssa.Value, shift int64) bool {
+		switch x := v.(type) {
+		case *ssa.BinOp:
+			switch x.Op {
+			case token.OR, token.ADD:
+				return walk(x.X, shift) && walk(x.Y, shift)
+			case token.SHL:
+				k, ok := sx.ConstInt(x.Y)
+				return ok && walk(x.X, shift+k)
+			}
+			return false
+		case *ssa.Convert:
+			return walk(x.X, shift)
+		case *ssa.UnOp:
+			if x.Op != token.MUL {
+				return false
+			}
+			ia, ok := x.X.(*ssa.IndexAddr)
+			if !ok {
+				return false
+			}
+			if base == nil {
+				base = ia.X
+			} else if ia.X != base {
+				return false
+			}
+			k, ok := sx.ConstInt(ia.Index)
+			if !ok {
+				return false
+			}
+			if _, dup := seen[k]; dup {
+				return false
+			}
+			seen[k] = shift
+			return true
+		}
+		return false
+	}
+	if !walk(v, 0) {
+		return nil, false
+	}
+	if len(seen) == 4 && seen[0] == 24 && seen[1] == 16 && seen[2] == 8 && seen[3] == 0 {
+		return base, true
+	}
+	return nil, false
+}
+
+// isBigEndian32: fn(b) returns uint32(b[0])<<24 | uint32(b[1])<<16 | uint32(b[2])<<8 | uint32(b[3]) — the four bytes of
+// its one byte-slice parameter in network order, each exactly once (| or +, any association).
+func isBigEndian32(fn *ssa.Function) bool {
+	if fn == nil || fn.Blocks == nil || len(fn.Params) != 1 || len(fn.Blocks) == 0 {
+		return false
+	}
+	rets := sx.Returns(fn)
+	if len(rets) != 1 || len(rets[0].Results) != 1 {
+		return false
+	}
+	seen := map[int64]int64{} // byte index → shift
+	var walk func(v ssa.Value, shift int64) bool
+	walk = func(v ssa.Value, shift int64) bool {
+		switch x := v.(type) {
+		case *ssa.BinOp:
+			switch x.Op {
+			case token.OR, token.ADD, token.XOR:
+				return walk(x.X, shift) && walk(x.Y, shift)
+			case token.SHL:
+				k, ok := sx.ConstInt(x.Y)
+				return ok && walk(x.X, shift+k)
+			}
+			return false
+		case *ssa.Convert:
+			return walk(x.X, shift)
+		case *ssa.UnOp:
+			if x.Op != token.MUL {
+				return false
+			}
+			ia, ok := x.X.(*ssa.IndexAddr)
+			if !ok || sx.Unspill(ia.X) != ssa.Value(fn.Params[0]) {
+				return false
+			}
+			k, ok := sx.ConstInt(ia.Index)
+			if !ok {
+				return false
+			}
+			if _, dup := seen[k]; dup {
+				return false
+			}
+			seen[k] = shift
+			return true
+		}
+		return false
+	}
+	if !walk(rets[0].Results[0], 0) {
+		return false
+	}
+	return len(seen) == 4 && seen[0] == 24 && seen[1] == 16 && seen[2] == 8 && seen[3] == 0
 }
 
 func isReturnBlock(b *ssa.BasicBlock) bool {
